@@ -6,7 +6,10 @@
 // imports, WKT imports, module- and file-level targeting), builds them into real ModuleSets
 // (ModuleSetBuilder over in-memory buckets with an in-process ModuleDataProvider/CommitProvider;
 // bufworkspace over a temp directory with a v2 buf.yaml + buf.lock or a buf.work.yaml + v1
-// buf.yaml files) and records, per workspace, one protocol line:
+// buf.yaml files; and "locked" workspaces — a v1 workspace whose modules each have their own
+// buf.lock, or a v2 workspace with one top-level buf.lock, read through the real buffetch reader
+// for a root / module-directory / parent-directory / proto-file / inside-module input, see
+// internal/wsgen/locked.go) and records, per workspace, one protocol line:
 //
 //	mods=  the selected modules (OpaqueID rank, commit, local?, target?)
 //	deps=  Module.ModuleDeps() of every module (ids + direct flags) or the error class
@@ -359,12 +362,20 @@ func main() {
 	tmpRoot := filepath.Join(run.OutDir, "ws")
 	nMem := run.N(1800, 30000)
 	nDisk := run.N(300, 4000)
-	total := nMem + nDisk
+	// locked workspaces: per-module buf.lock files (v1) / one top-level buf.lock (v2), read
+	// through buffetch for root / module / parent-directory / proto-file / inside-module inputs
+	nLocked := run.N(450, 3000)
+	total := nMem + nDisk + nLocked
 	for i := 0; i < total; i++ {
 		if run.Only >= 0 && i != run.Only {
 			continue
 		}
 		r := rnd.Fork(uint64(i))
+		if i >= nMem+nDisk {
+			ws := wsgen.GenLocked(r, wsgen.Opts{Kind: tf(r.Chance(2, 3), "v1", "v2"), Faults: r.Chance(1, 2)})
+			oneCase(run, i, ws, filepath.Join(tmpRoot, strconv.Itoa(i)))
+			continue
+		}
 		kind := "mem"
 		if i >= nMem {
 			kind = tf(r.Bool(), "v2", "v1")
@@ -380,9 +391,12 @@ func main() {
 
 func oneCase(run *hx.Run, idx int, ws *wsgen.WS, dir string) {
 	line := "ws\t" + ws.Line()
+	if ws.Locked {
+		line = ws.LockedLine()
+	}
 	replay := fmt.Sprintf("build/c10 --seed %d --tier %s --only %d --out /tmp/c10-replay", run.Seed, run.Tier, idx)
 	fail := func(class, what string) {
-		run.Fail(hx.OracleFailure{Class: class, What: what, Input: map[string]any{"kind": ws.Kind, "line": line, "added": ws.Added}, Replay: replay})
+		run.Fail(hx.OracleFailure{Class: class, What: what, Input: map[string]any{"kind": ws.Kind, "locked": ws.Locked, "input": ws.Input, "line": line, "added": ws.Added}, Replay: replay})
 	}
 	defer func() {
 		if p := recover(); p != nil {
@@ -391,13 +405,61 @@ func oneCase(run *hx.Run, idx int, ws *wsgen.WS, dir string) {
 	}()
 	var b *wsgen.Built
 	var err error
-	if ws.Kind == "mem" {
+	switch {
+	case ws.Kind == "mem":
 		b, err = ws.BuildMem(ctx)
-	} else {
+	case ws.Locked:
+		b, err = ws.BuildLocked(ctx, dir)
+		defer os.RemoveAll(dir)
+		if b != nil && b.Close != nil {
+			defer b.Close()
+		}
+	default:
 		b, err = ws.BuildDisk(ctx, dir)
 		defer os.RemoveAll(dir)
 	}
-	run.Count("kind:" + ws.Kind)
+	if ws.Locked {
+		run.Count("kind:" + ws.Kind + "-locked")
+		run.Count("locked-input:" + ws.Kind + ":" + ws.Input.Kind)
+		nPins, withPaths := 0, false
+		for i := range ws.Added {
+			if !ws.Added[i].Local {
+				nPins++
+			}
+			if len(ws.Added[i].Paths)+len(ws.Added[i].Excludes) > 0 {
+				withPaths = true
+			}
+		}
+		run.Count(fmt.Sprintf("locked-pins:%d", min(nPins, 6)))
+		for k, v := range map[string]bool{"pin-conflict": ws.PinConflict, "local-shadows-pin": ws.LocalShadowsPin, "lock-misses-pin": ws.BorrowedPin,
+			"pin-without-digest": len(ws.NoDigest) > 0, "non-target-only-pin": len(ws.NonTargetOnlyPins) > 0, "with-paths": withPaths} {
+			if v {
+				run.Count("locked:" + k)
+			}
+		}
+		if ws.Input.WantErr {
+			// an input directory strictly inside a module: buf refuses it, there is nothing to compare
+			run.Eval()
+			if err == nil {
+				fail("input-inside-module-accepted", fmt.Sprintf("workspace %d: input %q lies inside a module directory but a workspace was built for it", idx, ws.Input.Dir))
+			} else {
+				run.Count("locked:input-inside-module-refused")
+			}
+			return
+		}
+		if err != nil {
+			// nothing in these workspaces may make the construction fail: every lock parses, every
+			// pin is served, the input selects at least one module
+			fail("locked-workspace-build-failed", fmt.Sprintf("workspace %d (%s, input %s): building the workspace failed: %v", idx, ws.Kind, ws.Input.Kind, err))
+			run.Eval()
+			return
+		}
+		if b.Provider.CommitKeyCalls > 0 {
+			run.Count("locked:digest-resolved-through-commit-provider")
+		}
+	} else {
+		run.Count("kind:" + ws.Kind)
+	}
 	if ws.HasCommitTie {
 		run.Count("commit-tie-in-workspace")
 	}
@@ -444,8 +506,9 @@ func oneCase(run *hx.Run, idx int, ws *wsgen.WS, dir string) {
 	for oid, a := range sel {
 		m := byOID[oid]
 		if m == nil {
+			// (a pin of some buf.lock, or a module directory, that never reached the module set)
 			fail("selection-missing", fmt.Sprintf("OpaqueID %s was added but is not in the module set", oid))
-			return
+			continue
 		}
 		if a == nil {
 			determined = false
@@ -463,8 +526,11 @@ func oneCase(run *hx.Run, idx int, ws *wsgen.WS, dir string) {
 			fail("newest-commit", fmt.Sprintf("%s: expected commit %d got %d", oid, ws.CommitRank(a), commit))
 		}
 	}
-	if len(byOID) != len(sel) {
-		fail("selection-extra", fmt.Sprintf("module set has %d modules for %d OpaqueIDs", len(byOID), len(sel)))
+	for oid := range byOID {
+		if _, ok := sel[oid]; !ok {
+			fail("selection-extra", fmt.Sprintf("module set has a module %s nobody added (%d modules for %d OpaqueIDs)", oid, len(byOID), len(sel)))
+			break
+		}
 	}
 	if !determined {
 		return
@@ -473,9 +539,20 @@ func oneCase(run *hx.Run, idx int, ws *wsgen.WS, dir string) {
 	anyReachableCycle := false
 	anyMustErr := false
 	for oid := range sel {
+		if byOID[oid] == nil {
+			continue // reported as selection-missing; the modules that ARE there are still checked
+		}
 		reach, direct, mustErr, selfCycle := g.walk(oid)
 		if sel[oid].Target && (selfCycle || mustErr) {
 			anyMustErr = true
+		}
+		if ws.Locked && sel[oid].Target {
+			for d := range reach {
+				if ws.NonTargetOnlyPins[d] && !sel[d].Local {
+					run.Count("locked:target-reaches-remote-pinned-only-by-non-target")
+					break
+				}
+			}
 		}
 		_ = anyReachableCycle
 		cls, isErr := o.depErr[oid]
